@@ -75,6 +75,9 @@ const (
 	OpFPFromU // unsigned bv -> fp64 (RNE)
 	OpFPFromS
 	OpFPFromBits
+	OpFPRound // fp64 -> fp64, round to integral, ties away from zero (math.Round)
+	OpFPToU   // fp64 -> 64-bit unsigned bit-vector, toward zero (Go float -> uint conversion of an in-range value)
+	OpFPToS   // fp64 -> 64-bit signed bit-vector, toward zero
 	OpFPGe
 	OpFPGt
 	OpFPLe
@@ -923,6 +926,19 @@ func (ts *TermStore) FPFrom(a *Term, signed bool) *Term {
 	}
 	return ts.mk(&Term{Op: op, Sort: Sort{SFP64, 0}, Args: []*Term{a}})
 }
+func (ts *TermStore) FPFromBits(a *Term) *Term {
+	return ts.mk(&Term{Op: OpFPFromBits, Sort: Sort{SFP64, 0}, Args: []*Term{a}})
+}
+func (ts *TermStore) FPRound(a *Term) *Term {
+	return ts.mk(&Term{Op: OpFPRound, Sort: Sort{SFP64, 0}, Args: []*Term{a}})
+}
+func (ts *TermStore) FPToBV(a *Term, signed bool) *Term {
+	op := OpFPToU
+	if signed {
+		op = OpFPToS
+	}
+	return ts.mk(&Term{Op: op, Sort: BV(64), Args: []*Term{a}})
+}
 func (ts *TermStore) FPCmp(op Op, a, b *Term) *Term {
 	return ts.mk(&Term{Op: op, Sort: BoolSort, Args: []*Term{a, b}})
 }
@@ -1029,6 +1045,12 @@ func (p *Printer) define(t *Term) {
 		o.WriteString("(_ to_fp 11 53) RNE")
 	case OpFPFromBits:
 		o.WriteString("(_ to_fp 11 53)")
+	case OpFPRound:
+		o.WriteString("fp.roundToIntegral RNA")
+	case OpFPToU:
+		o.WriteString("(_ fp.to_ubv 64) RTZ")
+	case OpFPToS:
+		o.WriteString("(_ fp.to_sbv 64) RTZ")
 	default:
 		o.WriteString(opNames[t.Op])
 	}
